@@ -38,7 +38,7 @@ LEVEL = "exploration"
 
 # dyadic, strictly increasing, non-uniform (gaps .5 1.25 .75 2 .25 1.5 1)
 TS_NONUNI = [0.0, 0.5, 1.75, 2.5, 4.5, 4.75, 6.25, 7.25]
-TAUMAX = [1, 2, None]          # None = unbounded
+TAUMAX = [1, 2, None, 0]       # None = unbounded; 0 = instantaneous only
 LAGS = [0, 1]
 SHIFT = 2.5
 SCALES = [4.0, 0.25]
